@@ -1299,6 +1299,13 @@ std::string Generator::GeneratorImpl::generateCode(const AnalyserEquationAstPtr 
 
     std::string code;
 
+    if (ast == nullptr) {
+        // There is no AST (e.g., the missing operand of an incomplete
+        // expression), so there is no code to generate.
+
+        return code;
+    }
+
     switch (ast->type()) {
     case AnalyserEquationAst::Type::EQUALITY:
         code = generateOperatorCode(mProfile->equalityString(), ast);
@@ -1659,7 +1666,9 @@ std::string Generator::GeneratorImpl::generateCode(const AnalyserEquationAstPtr 
 
         break;
     case AnalyserEquationAst::Type::CI:
-        code = generateVariableNameCode(ast->variable(), ast->parent()->type() != AnalyserEquationAst::Type::DIFF);
+        code = generateVariableNameCode(ast->variable(),
+                                        (ast->parent() == nullptr)
+                                            || (ast->parent()->type() != AnalyserEquationAst::Type::DIFF));
 
         break;
     case AnalyserEquationAst::Type::CN:
